@@ -83,6 +83,7 @@ Eval(g, S, fuel, D) ==
   CASE g[1] = "probe" -> R(<<S>>, FALSE)
     [] g[1] = "show"  -> R(<<[S EXCEPT !.u.trail = Append(@, ToJson(WalkStar(Norm(g[2]), S.smap)))]>>, FALSE)
     [] g[1] = "isnum" -> IF IsNum(Norm(g[2])) THEN R(<<S>>, FALSE) ELSE R(<<>>, FALSE)
+    [] g[1] = "isground" -> IF Ground(Norm(g[2])) THEN R(<<S>>, FALSE) ELSE R(<<>>, FALSE)
     [] g[1] \in {"conj", "closure"} -> EvalSeq(g[2], S, fuel, D)
     [] g[1] = "rawconj" -> EvalSeq(<<g[2], g[3]>>, S, fuel, D)
     [] g[1] = "rawdisj" -> EvalClauses(<< <<g[2]>>, <<g[3]>> >>, S, fuel, D)
